@@ -3,16 +3,19 @@
   input line.  Imports model files only (core Lean), so it can also be compiled as a `lean_exe`.
 -/
 import HaqqModel.Driver.C12
+import HaqqModel.Driver.C09
 
 open Haqq.Driver
 
 structure All where
   c12 : C12.St := {}
+  c09 : C09.St := {}
 
 def stepLine (st : All) (line : String) : All × String :=
   let toks := (line.trimAscii.toString.splitOn " ").filter (· ≠ "")
   match toks with
   | "C12" :: rest => let (s, o) := C12.step st.c12 rest; ({ st with c12 := s }, o)
+  | "C09" :: rest => let (s, o) := C09.step st.c09 rest; ({ st with c09 := s }, o)
   | _ => (st, "bad-op")
 
 partial def loop (h : IO.FS.Stream) (out : IO.FS.Stream) (st : All) : IO Unit := do
